@@ -8,7 +8,11 @@ package dtls
 // and judged by an independent policy model.
 
 import (
+	"crypto/ecdsa"
+	"crypto/ed25519"
+	"crypto/rsa"
 	"crypto/tls"
+	"crypto/x509"
 	"encoding/binary"
 	"fmt"
 	"math/rand/v2"
@@ -746,6 +750,62 @@ func vfC11ResumedPolicy(t *testing.T, res *vfResult, idx int) {
 	synctest.Wait()
 }
 
+// vfC11SNICertificate: the server holds certificates of two key types and picks one by the client's server name.
+// Whichever it serves, the negotiated suite has to fit THAT key ("fits the server's key type"), or the handshake
+// fails with an alert.
+func vfC11SNICertificate(t *testing.T, res *vfResult, defaultKind string, suites []CipherSuiteID, tag string) {
+	pki := vfGetPKI()
+	res.Eval(1)
+	otherKind := map[string]string{"ecdsa": "rsa", "rsa": "ecdsa"}[defaultKind]
+	other := pki.Leaf(otherKind, map[string]string{"rsa": "server-other", "ecdsa": "server-wrongname"}[otherKind])
+	cO := append(vfV12(), WithRootCAs(pki.Pool), WithServerName("other.example"))
+	sO := append(vfV12(), WithCertificates(pki.Leaf(defaultKind, "server"), other))
+	if suites != nil {
+		cO, sO = append(cO, WithCipherSuites(suites...)), append(sO, WithCipherSuites(suites...))
+	}
+	n := vfNewNet()
+	p, err := vfNewPair(n, vfCO(cO...), append(vfSO(sO...), WithInsecureSkipVerifyHello(true)))
+	id := fmt.Sprintf("sni-certificate/default=%s/served=%s/%s", defaultKind, otherKind, tag)
+	if err != nil {
+		res.Count("config_rejected", 1)
+		res.Seen("config_rejected_cases", id+": "+err.Error())
+
+		return
+	}
+	cerr, serr := p.Handshake(30 * time.Second)
+	res.NonTrivial(id)
+	res.Count("sni_certificate_cases", 1)
+	if cerr == nil && serr == nil {
+		st, _ := p.C.Conn.ConnectionState()
+		keyKind := "?"
+		if len(st.PeerCertificates) > 0 {
+			if c, err := x509.ParseCertificate(st.PeerCertificates[0]); err == nil {
+				switch c.PublicKey.(type) {
+				case *rsa.PublicKey:
+					keyKind = "rsa"
+				case *ecdsa.PublicKey, ed25519.PublicKey:
+					keyKind = "ecdsa"
+				}
+			}
+		}
+		if sk := vfSuiteKind(st.CipherSuiteID); sk != keyKind {
+			res.Violate("C11:suite-does-not-fit-served-certificate",
+				fmt.Sprintf("%s: completed with suite %#04x (%s authentication) while the server authenticated with the %s certificate it selected for the client's server name",
+					id, uint16(st.CipherSuiteID), sk, keyKind), map[string]any{"sni": id})
+		} else {
+			res.Count("sni_certificate_consistent", 1)
+		}
+	} else {
+		res.Count("sni_certificate_refused", 1)
+		o, _ := vfObserveNegotiation(p)
+		if vfValidAlerts(o, 12) == 0 {
+			res.Violate("C11:failure-without-alert:sni-certificate", fmt.Sprintf("%s: refused (client=%v server=%v) without any alert on the wire", id, cerr, serr), map[string]any{"sni": id})
+		}
+	}
+	p.Close()
+	synctest.Wait()
+}
+
 func TestVF_C11(t *testing.T) {
 	vfGetPKI()
 	res := vfNewResult("C11", "generated pairs of option sets (version range x suite lists x curves x signature schemes x key type/PSK x EMS policy x "+
@@ -777,6 +837,18 @@ func TestVF_C11(t *testing.T) {
 	nc := vfPick(3000, 150000)
 	vfBubbles(t, nc, func(t *testing.T, i int) { vfC11Run(t, res, i) })
 	vfBubbles(t, 24, func(t *testing.T, i int) { vfC11ResumedPolicy(t, res, i) })
+	type sni struct {
+		def    string
+		suites []CipherSuiteID
+		tag    string
+	}
+	snis := []sni{
+		{"ecdsa", nil, "default-suites"}, {"rsa", nil, "default-suites"},
+		{"ecdsa", []CipherSuiteID{TLS_ECDHE_ECDSA_WITH_AES_128_GCM_SHA256, TLS_ECDHE_RSA_WITH_AES_128_GCM_SHA256}, "ecdsa-suite-first"},
+		{"rsa", []CipherSuiteID{TLS_ECDHE_RSA_WITH_AES_256_GCM_SHA384, TLS_ECDHE_ECDSA_WITH_AES_256_GCM_SHA384}, "rsa-suite-first"},
+		{"ecdsa", []CipherSuiteID{TLS_ECDHE_ECDSA_WITH_AES_128_GCM_SHA256}, "only-default-kind-suites"},
+	}
+	vfBubbles(t, len(snis), func(t *testing.T, i int) { vfC11SNICertificate(t, res, snis[i].def, snis[i].suites, snis[i].tag) })
 	res.Floor("negotiations_checked", int64(nc/10))
 	res.Floor("refused_incompatible", int64(nc/20))
 	res.Finish(t)
